@@ -1101,6 +1101,12 @@ impl fmt::Display for Selector {
     }
 }
 
+/// cache key of the `--define` assignments. must not depend on the iteration order of the map,
+/// which differs from process to process.
+fn cli_env_hash(cli_env: Option<&Env>) -> u64 {
+    cli_env.map_or(0, |env| utils::calculate_hash(&env.sorted_entries()))
+}
+
 #[derive(Deserialize, Serialize)]
 pub struct GenerateResult {
     pub mode: GenerateMode,
@@ -1127,7 +1133,7 @@ impl GenerateResult {
             apps: generator.apps,
             select: generator.select,
             disable: generator.disable,
-            cli_env_hash: generator.cli_env.as_ref().map_or(0, utils::calculate_hash),
+            cli_env_hash: cli_env_hash(generator.cli_env.as_ref()),
             build_infos,
             treestate,
             partitioner: generator.partitioner,
@@ -1205,7 +1211,7 @@ impl TryFrom<&Generator> for GenerateResult {
         if !res.disable.as_ref().eq(&generator.disable.as_ref()) {
             return Err(anyhow!("CLI disables don't match"));
         }
-        if res.cli_env_hash != generator.cli_env.as_ref().map_or(0, utils::calculate_hash) {
+        if res.cli_env_hash != cli_env_hash(generator.cli_env.as_ref()) {
             return Err(anyhow!("laze: CLI env doesn't match"));
         }
         if res.treestate.has_changed() {
